@@ -177,8 +177,13 @@ func runAPI(wl Workload) Stress {
 					case 3:
 						// Children of a node returned by Get (crashed the process
 						// before repo commit 3480f62: map iteration vs Delete)
-						t.Get(lp[:len(lp)-1]).Children()
-						t.Get(lp[:1]).Children()
+						// what Children returns is the caller's to keep: writing into it
+						// must not reach the tree (no path may appear that nobody added)
+						if c := t.Get(lp[:len(lp)-1]).Children(); c != nil {
+							c["zz-alien"] = alienLeaf()
+						}
+						for range t.Get(lp[:1]).Children() {
+						}
 					case 4:
 						t.Get(lp[:len(lp)-1]).IsBranch()
 					case 5:
@@ -242,6 +247,19 @@ func runAPI(wl Workload) Stress {
 	for _, l := range allowed {
 		st.Allowed = append(st.Allowed, l)
 	}
+	// the same once more with everything quiet (deterministic)
+	if c := t.Children(); c != nil {
+		c["zz-alien"] = alienLeaf()
+	}
+	if c := t.Get([]string{"a"}).Children(); c != nil {
+		c["zz-alien"] = alienLeaf()
+	}
 	st.Final = walkAll(t)
 	return st
+}
+
+func alienLeaf() *ctree.Tree {
+	n := &ctree.Tree{}
+	n.Add(nil, int64(4242))
+	return n
 }
